@@ -13,32 +13,50 @@ CEX = os.path.join(ROOT, "cex")
 REPO = os.environ.get("VERIF_REPO", "/repo")
 
 
+PROFILES = [("release", "flush-per-write build of rlib (debug assertions on)"), ("buffered", "optimised build of rlib (debug assertions off: Writer buffers)")]
+
+
 def _build():
     env = dict(os.environ, CARGO_NET_OFFLINE="true", CARGO_TARGET_DIR=os.path.join(ROOT, "build", "cex-target"))
-    p = subprocess.run(["cargo", "build", "--release", "--offline", "-q"], cwd=CEX, env=env, capture_output=True, text=True, timeout=900)
-    if p.returncode != 0:
-        return None, p.stderr[-2000:]
-    return os.path.join(ROOT, "build", "cex-target", "release", "rlib-cex"), None
+    exes = []
+    for prof, _ in PROFILES:
+        p = subprocess.run(["cargo", "build", "--profile", prof, "--offline", "-q"], cwd=CEX, env=env, capture_output=True, text=True, timeout=1200)
+        if p.returncode != 0:
+            return None, p.stderr[-2000:]
+        exes.append(os.path.join(ROOT, "build", "cex-target", prof, "rlib-cex"))
+    return exes, None
 
 
-def run_search(prop, seed=0, replay_input=None, timeout=600):
-    """returns dict: {"found": bool, "input":..., "observed":..., "expected":..., "cases": n} or None if unavailable"""
+def run_search(prop, seed=0, replay_input=None, timeout=150):
+    """returns dict: {"found": bool, "input":..., "observed":..., "expected":..., "cases": n, "profile":..} or {"error":..}; None if unavailable"""
     if not os.path.exists(os.path.join(CEX, "Cargo.toml")):
         return None
-    exe, err = _build()
-    if exe is None:
+    exes, err = _build()
+    if exes is None:
         return {"error": "cex crate does not build against the working tree: %s" % err}
-    args = [exe, prop, str(seed)]
-    if replay_input is not None:
-        args += ["--replay", json.dumps(replay_input)]
-    try:
-        p = subprocess.run(args, capture_output=True, text=True, timeout=timeout)
-    except subprocess.TimeoutExpired:
-        return {"error": "cex search timed out"}
-    for line in p.stdout.split("\n"):
-        if line.startswith("CEX "):
-            return json.loads(line[4:])
-    return {"error": "no result line (exit %d): %s" % (p.returncode, (p.stderr or p.stdout)[-800:])}
+    total = 0
+    for exe, (prof, desc) in zip(exes, PROFILES):
+        args = ["bash", "-c", "ulimit -v 8000000; exec \"$0\" \"$@\"", exe, prop, str(seed)]
+        if replay_input is not None:
+            args += ["--replay", replay_input if isinstance(replay_input, str) else json.dumps(replay_input)]
+        try:
+            p = subprocess.run(args, capture_output=True, text=True, timeout=timeout)
+        except subprocess.TimeoutExpired:
+            return {"error": "enumeration timed out after %ds in the %s (the real code may not terminate on some enumerated input)" % (timeout, desc)}
+        res = None
+        for line in p.stdout.split("\n"):
+            if line.startswith("CEX "):
+                res = json.loads(line[4:])
+        if res is None:
+            return {"error": "no result line (exit %d) in the %s: %s" % (p.returncode, desc, (p.stderr or p.stdout)[-800:])}
+        if res.get("error"):
+            return res
+        total += res.get("cases", 0)
+        if res.get("found"):
+            res["profile"] = prof
+            res["cases"] = total
+            return res
+    return {"found": False, "cases": total}
 
 
 def search(prop, failure, cfg, seed):
